@@ -8,6 +8,17 @@ package rdb
 // VerifCreateValueDump exposes createValueDump.
 func VerifCreateValueDump(t byte, val []byte) []byte { return createValueDump(t, val) }
 
+// VerifSkipParts reads the given numbers of bytes through the loader's tee reader, one request after the other (the way
+// the parser asks for a length byte, then a 4-byte length, then a long string body), and discards them.
+func (l *Loader) VerifSkipParts(parts []int) error {
+	for _, n := range parts {
+		if err := l.VerifSkip(n); err != nil {
+			return err
+		}
+	}
+	return nil
+}
+
 // VerifSkip reads exactly n bytes through the loader's tee reader (so that they are covered
 // by the running CRC) and discards them.
 func (l *Loader) VerifSkip(n int) error {
